@@ -103,12 +103,14 @@ type vSpkCluster struct {
 	Layout  string              `json:"layout"`
 	Members []string            `json:"members"`
 	Ml      bool                `json:"ml"`
+	Ign     bool                `json:"ign"`
 }
 
 type vSpkAct struct {
 	Op     string          `json:"op"`
 	S      string          `json:"s"`
 	N      string          `json:"n"`
+	P      string          `json:"p"`
 	V      json.RawMessage `json:"v"`
 	Layout string          `json:"layout"`
 }
@@ -390,6 +392,7 @@ func (r vSpkReader) List(_ context.Context, list client.ObjectList, opts ...clie
 // ---------------------------------------------------------------- recording BGP sessions, memberlist
 
 type vSpkSession struct {
+	m      *vSpkSessions
 	id     int
 	name   string
 	mu     sync.Mutex
@@ -399,6 +402,16 @@ type vSpkSession struct {
 }
 
 func (s *vSpkSession) Set(ads ...*bgp.Advertisement) error {
+	s.m.mu.Lock()
+	fail := s.m.armedSet
+	s.m.armedSet = false
+	if fail {
+		s.m.setFailed++
+	}
+	s.m.mu.Unlock()
+	if fail {
+		return fmt.Errorf("injected failure of Set on %s", s.name)
+	}
 	s.mu.Lock()
 	defer s.mu.Unlock()
 	s.last = append([]*bgp.Advertisement{}, ads...)
@@ -413,17 +426,31 @@ func (s *vSpkSession) Close() error {
 	return nil
 }
 
+// vSpkSessions is the recording session manager.  Every NewSession is a NEW session whose last
+// Set is empty until Set is called.  Faults are armed by the script and fire at the next call.
 type vSpkSessions struct {
-	mu     sync.Mutex
-	all    []*vSpkSession
-	opened int
+	mu          sync.Mutex
+	all         []*vSpkSession
+	opened      int
+	armedStart  map[string]bool
+	armedSet    bool
+	startFailed map[string]bool // peers whose latest start failed
+	setFailed   int
+	startFailN  int
 }
 
 func (m *vSpkSessions) NewSession(_ log.Logger, a bgp.SessionParameters) (bgp.Session, error) {
 	m.mu.Lock()
 	defer m.mu.Unlock()
+	if m.armedStart[a.SessionName] {
+		delete(m.armedStart, a.SessionName)
+		m.startFailed[a.SessionName] = true
+		m.startFailN++
+		return nil, fmt.Errorf("injected failure of NewSession for %s", a.SessionName)
+	}
+	delete(m.startFailed, a.SessionName)
 	m.opened++
-	s := &vSpkSession{id: m.opened, name: a.SessionName}
+	s := &vSpkSession{m: m, id: m.opened, name: a.SessionName}
 	m.all = append(m.all, s)
 	return s, nil
 }
@@ -473,6 +500,7 @@ type vSpkWorld struct {
 	// bookkeeping of the driver (not an oracle): services handed to the handler since the
 	// configuration was last loaded by the speaker
 	since   map[string]bool
+	errS    map[string]bool // services whose latest handler call returned an error
 	handled []string
 	lastCfg *config.Config
 	blk     *kit.Block
@@ -483,8 +511,8 @@ var vSpkNewMu sync.Mutex
 
 func vSpkNewWorld(id string, seed int64, cl *vSpkCluster, blk *kit.Block) *vSpkWorld {
 	w := &vSpkWorld{id: id, rnd: rand.New(rand.NewSource(seed)), cl: cl, blk: blk,
-		svcQ: map[string]bool{}, nodeQ: map[string]bool{}, since: map[string]bool{}}
-	w.mgr = &vSpkSessions{}
+		svcQ: map[string]bool{}, nodeQ: map[string]bool{}, since: map[string]bool{}, errS: map[string]bool{}}
+	w.mgr = &vSpkSessions{armedStart: map[string]bool{}, startFailed: map[string]bool{}}
 	_, excl := vSpkLocalIf()
 	vSpkNewMu.Lock()
 	saved := newBGP
@@ -496,6 +524,7 @@ func vSpkNewWorld(id string, seed int64, cl *vSpkCluster, blk *kit.Block) *vSpkW
 		Logger:                 log.NewNopLogger(),
 		SList:                  &vSpkSL{w: w},
 		bgpType:                bgpFrr,
+		IgnoreExcludeLB:        cl.Ign,
 		InterfaceExcludeRegexp: excl,
 		Layer2StatusChange:     func(types.NamespacedName) {},
 		BGPAdsChangedCallback:  func(string) {},
@@ -522,7 +551,13 @@ func vSpkNewWorld(id string, seed int64, cl *vSpkCluster, blk *kit.Block) *vSpkW
 		Handler: func(l log.Logger, name string, svc *v1.Service, eps []discovery.EndpointSlice) controllers.SyncState {
 			w.handled = append(w.handled, kit.SvcOfKey(name))
 			w.since[kit.SvcOfKey(name)] = true
-			return c.SetBalancer(l, name, svc, eps)
+			st := c.SetBalancer(l, name, svc, eps)
+			if st == controllers.SyncStateError {
+				w.errS[kit.SvcOfKey(name)] = true
+			} else {
+				delete(w.errS, kit.SvcOfKey(name))
+			}
+			return st
 		}}
 	w.nr = &controllers.NodeReconciler{Client: rd, Logger: log.NewNopLogger(), NodeName: vSpkMe, Handler: c.SetNode, ForceReload: force}
 	w.cr = &controllers.ConfigReconciler{Client: rd, Logger: log.NewNopLogger(), Namespace: vSpkMetalNS,
@@ -610,6 +645,14 @@ func (w *vSpkWorld) exec(a vSpkAct) (skipped bool) {
 		sort.Strings(out)
 		w.cl.Members = out
 		w.reload = true // the speaker list forces a sync
+	case "ArmStart":
+		w.mgr.mu.Lock()
+		w.mgr.armedStart[a.P] = true
+		w.mgr.mu.Unlock()
+	case "ArmSet":
+		w.mgr.mu.Lock()
+		w.mgr.armedSet = true
+		w.mgr.mu.Unlock()
 	case "DeliverSvc":
 		if !w.svcQ[a.S] {
 			return true
@@ -796,6 +839,15 @@ func (w *vSpkWorld) observe(i int, raw json.RawMessage, op string, skipped bool)
 		}
 	}
 	opened := w.mgr.opened
+	sf := []string{}
+	for _, p := range c.protocolHandlers[config.BGP].(*bgpController).peers {
+		if w.mgr.startFailed[p.cfg.Name] && p.session == nil {
+			sf = append(sf, p.cfg.Name)
+		}
+	}
+	sort.Strings(sf)
+	armed := kit.SortedKeys(w.mgr.armedStart)
+	fset, setFailed, startFailN := w.mgr.armedSet, w.mgr.setFailed, w.mgr.startFailN
 	w.mgr.mu.Unlock()
 	if w.handled == nil {
 		w.handled = []string{}
@@ -803,7 +855,7 @@ func (w *vSpkWorld) observe(i int, raw json.RawMessage, op string, skipped bool)
 	o := map[string]any{"w": w.id, "n": w.nobs, "i": i, "op": op, "act": raw, "skipped": skipped, "q": q,
 		"reload": w.reload, "gate": controllers.VerifGate(w.sr), "cfgQ": w.cfgQ, "svcQ": kit.SortedKeys(w.svcQ), "nodeQ": kit.SortedKeys(w.nodeQ),
 		"cl": w.cl, "ctl": vSpkLoaded(c), "seen": seen, "annB": annB, "annL": annL, "ips": ips, "since": kit.SortedKeys(w.since),
-		"handled": w.handled, "l2": l2, "peers": peers, "rep": rep, "opened": opened, "closed": closed,
+		"handled": w.handled, "errS": kit.SortedKeys(w.errS), "sf": sf, "fs": armed, "fset": fset, "setFailed": setFailed, "startFailedN": startFailN, "l2": l2, "peers": peers, "rep": rep, "opened": opened, "closed": closed,
 		"rank": vSpkRankFor(w.cl), "localifs": []string{"ifA"}}
 	if q {
 		o["fresh"] = vSpkFresh(w.cl)
